@@ -165,7 +165,14 @@ def _run_job(modname, subname, tier, seed, shard, nshards, outpath, journal):
         from . import build
         mod = importlib.import_module(modname)
         sub = [s for s in mod.subs(tier) if s.name == subname][0]
-        if build.activate(sub.variant if sub.variant in ("opt", "avx512") else "opt") is None:
+        ov = os.environ.get("VERIF_VARIANT_OVERRIDE")
+        if ov and sub.variant != "opt":
+            res["sub"] = subname
+            res["skipped_job"] = "sub needs variant %s; not run under --sanitize" % sub.variant
+            with open(outpath, "w") as f:
+                json.dump(res, f)
+            os._exit(0)
+        if build.activate(ov or (sub.variant if sub.variant in ("opt", "avx512") else "opt")) is None:
             raise RuntimeError("variant %s not available on this machine" % sub.variant)
         ctx = Ctx(mod.PROPERTY, subname, tier, seed, shard, load_findings(), scratch)
         jf = open(journal, "w") if (journal and (sub.journal or os.environ.get("VERIF_FORCE_JOURNAL"))) else None
